@@ -89,10 +89,11 @@ fn phase1(
     cfg: &Cfg,
     rec: Value,
     map: &mut HashMap<[u8; 67], Board>,
+    alts: &mut HashMap<[u8; 67], Vec<Board>>,
     hmap: &mut HashMap<u64, [u8; 67]>,
     rep: &mut Report,
     dirty: &Board,
-) -> Option<Item> {
+) -> Vec<Item> {
     let fen = rec["fen"].as_str().unwrap().to_string();
     let sp = pos_from_spec_fen(&fen);
     // internal consistency of the record itself (tool error if broken)
@@ -122,13 +123,13 @@ fn phase1(
                     if has(cfg, "C07") {
                         rep.violation("C07", "valid_position_rejected", v);
                     }
-                    return None;
+                    return vec![];
                 }
                 Err(_) => {
                     if has(cfg, "C07") {
                         rep.violation("C07", "panic_in_from_str", json!({"fen": fen}));
                     }
-                    return None;
+                    return vec![];
                 }
             };
             let pb = proj(&b);
@@ -140,7 +141,7 @@ fn phase1(
                         json!({"fen": fen, "expected": sp.describe(), "observed": pb.describe()}),
                     );
                 }
-                return None;
+                return vec![];
             }
             map.insert(key, b);
             (b, false)
@@ -276,6 +277,10 @@ fn phase1(
                                    "hash": [n1.get_hash().to_string(), fresh.get_hash().to_string()]}),
                         );
                     }
+                    if has(cfg, "C08") && n2.get_hash() != n1.get_hash() {
+                        rep.violation("C08", "hash_differs_between_entry_points", json!({"fen": fen, "move": [f, t, p],
+                            "hash": [n1.get_hash().to_string(), n2.get_hash().to_string()]}));
+                    }
                     if has(cfg, "C08") && fresh.get_hash() != n1.get_hash() {
                         rep.violation(
                             "C08",
@@ -343,6 +348,14 @@ fn phase1(
                             rep.violation("C08", "std_hash_inconsistent_with_eq", json!({"position": pn.describe()}));
                         }
                     }
+                    if *first != n1 {
+                        // a later arrival that is not indistinguishable from the first: keep it, so that every
+                        // per-state comparison is also made on this board when the state's record comes
+                        let e = alts.entry(k2).or_insert_with(Vec::new);
+                        if e.len() < 4 && !e.contains(&n1) {
+                            e.push(n1);
+                        }
+                    }
                     if has(cfg, "C03") && *first != n1 {
                         rep.violation(
                             "C03",
@@ -363,7 +376,17 @@ fn phase1(
             }
         }
     }
-    Some(Item { rec, sp, board, incremental })
+    let mut items = vec![];
+    if let Some(v) = alts.get(&key) {
+        for b2 in v.iter() {
+            if *b2 != board {
+                rep.count("alternative_arrivals_examined", 1);
+                items.push(Item { rec: rec.clone(), sp, board: *b2, incremental: true });
+            }
+        }
+    }
+    items.insert(0, Item { rec, sp, board, incremental });
+    items
 }
 
 fn movegen_list(b: &Board) -> Vec<ChessMove> {
@@ -610,6 +633,55 @@ fn phase2(cfg: &Cfg, it: &Item, idx: u64, rep: &mut Report) {
         }
     }
 
+    // C05 is about the moves the library GENERATES: apply every one of them (also those the spec does not list)
+    if has(cfg, "C05") {
+        let men = [b.color_combined(Color::White).popcnt(), b.color_combined(Color::Black).popcnt()];
+        let pawns = [
+            (b.pieces(Piece::Pawn) & b.color_combined(Color::White)).popcnt(),
+            (b.pieces(Piece::Pawn) & b.color_combined(Color::Black)).popcnt(),
+        ];
+        for m in movegen_list(b) {
+            if b.piece_on(m.get_source()).is_none() {
+                rep.violation("C05", "generated_move_from_empty_square", json!({"fen": fen, "move": mv_json(m)}));
+                continue;
+            }
+            let r = std::panic::catch_unwind(|| b.make_move_new(m));
+            let n = match r {
+                Ok(n) => n,
+                Err(_) => {
+                    rep.violation("C05", "panic_applying_generated_move", json!({"fen": fen, "move": mv_json(m)}));
+                    continue;
+                }
+            };
+            rep.count("generated_moves_applied", 1);
+            let pn = proj(&n);
+            let kw = pn.sq.iter().filter(|c| **c == b'K').count();
+            let kb = pn.sq.iter().filter(|c| **c == b'k').count();
+            let back = (0..8).any(|i| pn.sq[i] == b'P' || pn.sq[i] == b'p' || pn.sq[56 + i] == b'P' || pn.sq[56 + i] == b'p');
+            let mn = [n.color_combined(Color::White).popcnt(), n.color_combined(Color::Black).popcnt()];
+            let pw = [
+                (n.pieces(Piece::Pawn) & n.color_combined(Color::White)).popcnt(),
+                (n.pieces(Piece::Pawn) & n.color_combined(Color::Black)).popcnt(),
+            ];
+            let what = if kw != 1 || kb != 1 {
+                Some("king_count")
+            } else if back {
+                Some("pawn_on_back_rank")
+            } else if !n.is_sane() {
+                Some("not_sane")
+            } else if rights_mask(&n) & !sp.cr != 0 {
+                Some("castling_right_came_back")
+            } else if mn[0] > men[0] || mn[1] > men[1] || pw[0] > pawns[0] || pw[1] > pawns[1] {
+                Some("material_grew")
+            } else {
+                None
+            };
+            if let Some(w) = what {
+                rep.violation("C05", &format!("generated_move_leads_to_{}", w), json!({"fen": fen, "move": mv_json(m), "after": pn.describe()}));
+            }
+        }
+    }
+
     // ---------------- C06 ----------------
     if has(cfg, "C06") {
         let allowed: Vec<String> = rec["fa"].as_array().unwrap().iter().map(|x| x.as_str().unwrap().to_string()).collect();
@@ -843,6 +915,12 @@ fn symmetric(
                 if x != bb_squares(*inx.checkers()) {
                     rep.violation("C17", &format!("{}_successor_checkers", which), json!({"fen": fen, "move": [m.0, m.1, m.2]}));
                 }
+                let mut y: Vec<u8> = bb_squares(*n.pinned() & *n.color_combined(n.side_to_move())).iter().map(|s| fsq(*s)).collect();
+                y.sort();
+                let iy = bb_squares(*inx.pinned() & *inx.color_combined(inx.side_to_move()));
+                if y != iy {
+                    rep.violation("C17", &format!("{}_successor_pinned", which), json!({"fen": fen, "move": [m.0, m.1, m.2], "image_of_pinned": y, "pinned_of_image": iy}));
+                }
             }
             Err(_) => rep.violation("C17", &format!("{}_panic", which), json!({"fen": fen, "move": [m.0, m.1, m.2]})),
         }
@@ -969,6 +1047,7 @@ fn main() {
     std::panic::set_hook(Box::new(|_| {}));
     let dirty = Board::from_str("r3k2r/p1ppqpb1/bn2pnp1/3PN3/1p2P3/2N2Q1p/PPPBBPPP/R3K2R b KQkq - 0 1").unwrap();
     let mut map: HashMap<[u8; 67], Board> = HashMap::new();
+    let mut alts: HashMap<[u8; 67], Vec<Board>> = HashMap::new();
     let mut hmap: HashMap<u64, [u8; 67]> = HashMap::new();
     let mut rep = Report::new();
     let stdin = io::stdin();
@@ -1036,12 +1115,13 @@ fn main() {
         };
         if map.len() >= cfg.mapcap {
             map.clear();
+            alts.clear();
             rep.count("state_map_cleared", 1);
         }
         if hmap.len() >= 4 * cfg.mapcap {
             hmap.clear();
         }
-        if let Some(it) = phase1(&cfg, rec, &mut map, &mut hmap, &mut rep, &dirty) {
+        for it in phase1(&cfg, rec, &mut map, &mut alts, &mut hmap, &mut rep, &dirty) {
             batch.push(it);
         }
         idx += 1;
